@@ -124,9 +124,7 @@ def _search(behs, seed):
     binq = vlib.go_build("qbft")
     inp = os.path.join(wd, "prefixes.ndjson")
     outp = os.path.join(wd, "search_result.json")
-    vlib.write_ndjson(inp, behs)
-    _, wall = vlib.run_driver(binq, ["-in", inp, "-out", outp, "-search", "-seed", str(seed)], timeout=3000)
-    res = json.load(open(outp))
+    res, wall = vlib.run_driver_sharded(binq, behs, inp, outp, extra=["-search", "-seed", str(seed)], timeout=3000)
     log("[C07] continuation search from %d prefixes on real controllers in %.0fs: %s" % (res["behaviours"], wall, res["counters"]))
     return res, inp
 
